@@ -65,7 +65,7 @@ def scope_defs(repo, nmax, with_corpus=True, nmin=1, fork_depth=3):
     return defs
 
 
-def extended_defs(nb, staged=True, bunched=True):
+def extended_defs(nb, staged=True, bunched=True, leadloop=None):
     """definitions beyond fragment F whose job sets the tool must handle just
     the same (general statements of C01/C05): bunched forks (as in the
     corpus' bunched_* cases) with <= nb events and the staged-merge family"""
@@ -74,6 +74,11 @@ def extended_defs(nb, staged=True, bunched=True):
         out += [("FB", d) for d in fragment.F_bunched_new(nb)]
     if staged:
         out += [("FS", d) for d in fragment.staged_merge_family()]
+    if leadloop is None:
+        leadloop = max(nb, 5)
+    if leadloop:
+        # loop bodies that begin with an inner loop (shared start event)
+        out += [("FL", d) for d in fragment.F_leadloop(leadloop)]
     return out
 
 
